@@ -183,15 +183,15 @@ check('C07',
       'divisors in [2^-100, 2^100]; abs(Phase) within 2^-52; the mul / div / abs branches of the model reduce to exactly these functions. '
       'The floor_divide / remainder / divmod branch is modelled statement by statement (numpy npy_divmod with exact fmod, correction Phase, '
       'two passes; compared bit for bit on every run) and whatever quotient q it returns, the remainder it returns is the phase minus q*divisor '
-      'within 2^-51, normalised (C07_divmod_identity); and IF numpy\'s float floor_divide returns the exact floor (explicit hypothesis fdiv_spec, '
-      'not an axiom; the model of it is compared with numpy bit for bit and numpy with the exact rational floor on every run) the branch returns '
-      'an integer quotient with -delta <= remainder < divisor + delta, delta = 2^-49 + 2^-52 d, for counts up to 2^40 and divisors in '
+      'within 2^-51, normalised (C07_divmod_identity); the model\'s fmod is exact and its floor_divide returns the EXACT floor of the quotient of two '
+      'doubles (C07_fmod_exact, C07_floor_divide_exact: decoding / encoding of doubles through Flocq), hence the branch returns '
+      'an integer quotient with -delta <= remainder < divisor + delta, delta = 2^-49 + 2^-52 d, for counts up to 2^39 and divisors in '
       '[2^-10, 2^10] (C07_divmod_floor). PARTIAL: |frac| <= 1/2 exactly at ties, ranges outside those hypotheses, '
       'trig-on-fraction and "never decays to a single double" for each operand kind are decided by '
       'the correspondence run (every case evaluated by vm_compute on the model and compared BIT FOR BIT with the implementation) and by the '
       'exact-rational monitor (|result - exact| <= 2^-52, normalised, type Phase) on every run.',
       'Trusted: Coq kernel, stdlib FloatAxioms (kernel binary64 = IEEE 754) + real-number axioms through Flocq; astropy two_sum / '
-      'two_product / split as transcribed (bit-exact on every case); np.floor = floor; numpy float floor_divide = exact floor (hypothesis of C07_divmod_floor, monitored). Known finding D21 (Phase divisor in //, %, divmod '
+      'two_product / split as transcribed (bit-exact on every case); np.floor = floor; the C floor_divide of numpy / fmod = the model np_divmod (bit-exact comparison on every run; the model is proved to be the exact floor). Known finding D21 (Phase divisor in //, %, divmod '
       'raises RecursionError). Bare-number divisors of // and % raise by astropy unit convention (not sampled).',
       'machine-checked proof in Coq (Flocq) about a bit-exact binary64 model + bit-for-bit correspondence run (vm_compute) + exact-rational monitor',
       'DESIGN.md 5 C07')
